@@ -1078,7 +1078,7 @@ func expandFiniteLoops(gates []*Gate) []*Gate {
 			continue
 		}
 		n, ok := constInt(StripConv(p.Args[0]))
-		if !ok || n < 0 || n > 64 {
+		if !ok || n < 0 || n > 64 || !IsSeqLen(p.Args[0]) {
 			continue
 		}
 		id := it.Name
@@ -1230,7 +1230,7 @@ func unrollFiniteExits(a *Alt) []*Alt {
 			continue
 		}
 		k, ok := constInt(StripConv(p.Args[1]))
-		if !ok || k <= 0 || k > 32 {
+		if !ok || k <= 0 || k > 32 || !IsSeqLen(p.Args[1]) {
 			continue
 		}
 		it, n = x, int(k)
